@@ -20,6 +20,7 @@ CONSTANTS Keys,        \* key identifiers
           Hosted,      \* partitions (0..P-1) hosted by the server
           Vals,        \* values
           NsOf,        \* [Keys -> namespace]: a multi-key command names keys of ONE namespace
+          Refused,     \* keys whose write the owning partition refuses when it applies it (too long, ...)
           RouteMulti,  \* "perkey" (the design) | "firstkey" (mutant: whole command to the first key's partition)
           OwnerShift,  \* 0 (the design) | 1 (mutant: the server computes another partition than the SDK)
           RejectUnhosted \* TRUE (the design) | FALSE (mutant: an unhosted key is served by some hosted partition)
@@ -120,8 +121,26 @@ MGet(ks) ==
        /\ refReply' = MGetReply(ref, ks)
        /\ Touch(ks) /\ UNCHANGED <<part, store, ref>>
 
+\* PLSET with a partition that refuses its share (it holds a refused key): that partition writes
+\* nothing, the others write; there is one status per pair IN ARGUMENT ORDER - ERR for the pairs of a
+\* refusing partition, OK for the others
+Refusing(ks)   == {MultiTarget(ks, i) : i \in {j \in DOMAIN ks : ks[j] \in Refused}}
+Statuses(ks)   == [i \in DOMAIN ks |-> IF MultiTarget(ks, i) \in Refusing(ks) THEN "ERR" ELSE "OK"]
+RECURSIVE PutSome(_, _, _, _)
+PutSome(d, ks, vs, ok) == IF ks = <<>> THEN d
+                          ELSE PutSome(IF Head(ok) = "OK" THEN PutV(d, Head(ks), Head(vs)) ELSE d, Tail(ks), Tail(vs), Tail(ok))
+
 PLSet(ks, vs) ==
   IF ~MultiServed(ks) THEN Rejected
+  ELSE IF Refusing(ks) # {}
+  THEN /\ store' = [p \in Parts |->
+                      LET idx == {i \in DOMAIN ks : MultiTarget(ks, i) = p /\ p \notin Refusing(ks)}
+                          G[n \in 0..Len(ks)] == IF n = 0 THEN store[p]
+                                                 ELSE IF n \in idx THEN PutV(G[n - 1], ks[n], vs[n]) ELSE G[n - 1]
+                      IN G[Len(ks)]]
+       /\ ref' = PutSome(ref, ks, vs, Statuses(ks))
+       /\ reply' = Statuses(ks) /\ refReply' = Statuses(ks)
+       /\ Touch(ks) /\ UNCHANGED part
   ELSE /\ store' = [p \in Parts |->
                       LET idx == {i \in DOMAIN ks : MultiTarget(ks, i) = p}
                           G[n \in 0..Len(ks)] == IF n = 0 THEN store[p]
